@@ -81,7 +81,7 @@ def run_cases(nc, qual, cases, limit, stats):
 def main(argv):
     t0 = time.time()
     mode, name = argv[0], argv[1]
-    reg = load_sidecars(sorted(glob.glob(os.path.join(ROOT, "contracts", "*.py"))))
+    reg = load_sidecars([p for p in sorted(glob.glob(os.path.join(ROOT, "contracts", "*.py"))) if not os.path.basename(p).startswith("c_")])  # c_*.py are z3-level C contracts (prover side only)
     nc = NativeContracts(reg, extra_env=gens.native_env())
     if mode == "replay":
         inp = json.loads(sys.stdin.read() or "{}")
@@ -93,6 +93,17 @@ def main(argv):
             return 0
         n, _d, viol = run_cases(nc, name, gens.GENS[name](rng, model, 20000), 20000, stats)
         print(json.dumps({"reproduced": viol is not None, "cases_tried": n, "model_used": model, "failing": viol, "stats": stats, "wall_s": round(time.time() - t0, 2)}, default=str))
+        return 0
+    if mode == "replayc":
+        from engine.native import cnative
+
+        inp = json.loads(sys.stdin.read() or "{}")
+        try:
+            res = cnative.replay_c(name, inp.get("model") or {})
+        finally:
+            cnative.cleanup()
+        res["wall_s"] = round(time.time() - t0, 2)
+        print(json.dumps(res, default=str))
         return 0
     if mode == "bounded":
         tier = argv[argv.index("--tier") + 1] if "--tier" in argv else "quick"
